@@ -3,28 +3,34 @@
      Acquire -> Check(done) -> Append(args) -> [EnterFn -> ReturnFn] -> Release
    with fn inside the mutex (FnUnderLock = TRUE, the pinned code) or after the
    Release (FALSE: the shape of an "avoid re-entrant deadlock" refactor).
-   MarkDone is a separate thread that may fire at any moment.               *)
+   MarkDone is a separate thread that may fire at any moment, or (FnMarksDone) it is called by the first invocation of fn itself -
+   i.e. under the mutex: then no later Call may invoke fn or change Result, even a Call that began while that first invocation
+   was still running.  DoneCheckFirst = TRUE is the variant that tests the done flag BEFORE taking the mutex ("fast path") and not
+   again afterwards: a Call that passed the test while the first invocation was running still appends, invokes and overwrites.  *)
 EXTENDS Integers, Sequences, FiniteSets
-CONSTANTS Thread, FnUnderLock
+CONSTANTS Thread, FnUnderLock, FnMarksDone, DoneCheckFirst
 VARIABLES pc, lock, args, result, done, seen, fnlog, calls
 vars == <<pc, lock, args, result, done, seen, fnlog, calls>>
 NoOne == 0
 Init == /\ pc = [t \in Thread |-> "idle"] /\ lock = NoOne /\ args = <<>> /\ result = 0 /\ done = FALSE
         /\ seen = [t \in Thread |-> <<>>] /\ fnlog = <<>> /\ calls = 0
-Acquire(t) == pc[t] = "idle" /\ lock = NoOne /\ lock' = t /\ pc' = [pc EXCEPT ![t] = "locked"] /\ UNCHANGED <<args, result, done, seen, fnlog, calls>>
+PreCheck(t) == /\ DoneCheckFirst /\ pc[t] = "idle"
+               /\ pc' = [pc EXCEPT ![t] = IF done THEN "finished" ELSE "prechecked"] /\ UNCHANGED <<lock, args, result, done, seen, fnlog, calls>>
+Acquire(t) == pc[t] = (IF DoneCheckFirst THEN "prechecked" ELSE "idle") /\ lock = NoOne /\ lock' = t /\ pc' = [pc EXCEPT ![t] = "locked"] /\ UNCHANGED <<args, result, done, seen, fnlog, calls>>
 Check(t)   == /\ pc[t] = "locked"
-              /\ IF done THEN pc' = [pc EXCEPT ![t] = "release"] /\ UNCHANGED args
+              /\ IF done /\ ~DoneCheckFirst THEN pc' = [pc EXCEPT ![t] = "release"] /\ UNCHANGED args
                  ELSE pc' = [pc EXCEPT ![t] = IF FnUnderLock THEN "enter" ELSE "release_then_fn"] /\ args' = Append(args, t)
               /\ UNCHANGED <<lock, result, done, seen, fnlog, calls>>
 EnterFn(t) == /\ pc[t] = "enter" /\ pc' = [pc EXCEPT ![t] = "infn"] /\ seen' = [seen EXCEPT ![t] = args]
               /\ fnlog' = Append(fnlog, args) /\ calls' = calls + 1 /\ UNCHANGED <<lock, args, result, done>>
 ReturnFn(t) == /\ pc[t] = "infn" /\ result' = Len(seen[t])
-               /\ pc' = [pc EXCEPT ![t] = IF FnUnderLock THEN "release" ELSE "finished"] /\ UNCHANGED <<lock, args, done, seen, fnlog, calls>>
+               /\ done' = (done \/ (FnMarksDone /\ calls = 1))                  \* the first invocation calls MarkDone before it returns
+               /\ pc' = [pc EXCEPT ![t] = IF FnUnderLock THEN "release" ELSE "finished"] /\ UNCHANGED <<lock, args, seen, fnlog, calls>>
 Release(t) == /\ pc[t] \in {"release", "release_then_fn"} /\ lock = t /\ lock' = NoOne
               /\ pc' = [pc EXCEPT ![t] = IF pc[t] = "release" THEN "finished" ELSE "enter"]
               /\ UNCHANGED <<args, result, done, seen, fnlog, calls>>
-MarkDone == ~done /\ done' = TRUE /\ UNCHANGED <<pc, lock, args, result, seen, fnlog, calls>>
-Next == (\E t \in Thread : Acquire(t) \/ Check(t) \/ EnterFn(t) \/ ReturnFn(t) \/ Release(t)) \/ MarkDone
+MarkDone == ~FnMarksDone /\ ~done /\ done' = TRUE /\ UNCHANGED <<pc, lock, args, result, seen, fnlog, calls>>
+Next == (\E t \in Thread : PreCheck(t) \/ Acquire(t) \/ Check(t) \/ EnterFn(t) \/ ReturnFn(t) \/ Release(t)) \/ MarkDone
 Spec == Init /\ [][Next]_vars
 
 InFn == {t \in Thread : pc[t] = "infn"}
@@ -34,6 +40,8 @@ Inv_ArgsAccumulate == \A i \in 1..(Len(fnlog) - 1) : Len(fnlog[i + 1]) = Len(fnl
 \* when all callers are finished the result is the value for ALL accumulated arguments
 Inv_FinalResult == (\A t \in Thread : pc[t] = "finished") => result = Len(args)
 \* once done is set and nobody is past the done check, the result is frozen
-Quiet == done /\ \A t \in Thread : pc[t] \in {"idle", "finished", "locked", "release"}
+Quiet == done /\ \A t \in Thread : pc[t] \in {"idle", "finished", "locked", "release", "prechecked"}
+\* MarkDone called by the first invocation itself: that invocation is the only one
+Inv_OnlyFirstInvocation == FnMarksDone => (calls <= 1 /\ (done => result = 1))
 Act_Frozen == [][Quiet => result' = result]_vars
 =============================================================================
